@@ -664,7 +664,7 @@ def arith_cases(cases):
 
 
 # ------------------------------------------------------------------ C25 export
-def ground_export(text, break_cycles=False, compact=False, fmt="pl"):
+def ground_export(text, break_cycles=False, compact=False, fmt="pl", keep_duplicates=False):
     """What `problog ground` does (tasks/ground.py main), then re-evaluate the exported text."""
     from problog.program import PrologString, ExtendedPrologFactory
     from problog.parser import DefaultPrologParser
@@ -673,7 +673,7 @@ def ground_export(text, break_cycles=False, compact=False, fmt="pl"):
     target = LogicDAG if (break_cycles or fmt == "cnf") else LogicFormula
     gp = target.createFrom(PrologString(text, parser=DefaultPrologParser(ExtendedPrologFactory())),
                            label_all=True, avoid_name_clash=not compact, keep_order=True, keep_all=False,
-                           keep_duplicates=False, hide_builtins=False, propagate_evidence=False, propagate_weights=None)
+                           keep_duplicates=keep_duplicates, hide_builtins=False, propagate_evidence=False, propagate_weights=None)
     if fmt == "cnf":
         cnf = CNF.createFrom(gp)
         txt = cnf.to_dimacs()
